@@ -2,11 +2,94 @@
 from vf import core
 from . import remoteclient as rc
 
-FORMULAS = {'Gated', 'RegisterSigned', 'RegisterFresh', 'AcceptedOnlyIfValid', 'FlushedWithHandshake', 'SubscriptionsDirect', 'AnsweredOnlyIfWritten', 'CarriedNotWritten', 'CarriedGated', 'NoDataBeforeAccept', 'NoPanic'}
+FORMULAS = {'DataAfterAccept', 'AcceptOnce', 'Gated', 'RegisterSigned', 'RegisterFresh', 'AcceptedOnlyIfValid', 'FlushedWithHandshake', 'SubscriptionsDirect', 'AnsweredOnlyIfWritten', 'CarriedNotWritten', 'CarriedGated', 'NoDataBeforeAccept', 'NoPanic'}
+
+
+RB_DIRECTED = [
+    # the accept of connection 1 waits behind a full handler queue, is examined in the retry window; connection 2 must start unaccepted
+    ('old-accept-in-retry-window', [('Hold', 0, ''), ('Notify', 0, 'tip'), ('Flood', 0, ''), ('Accept', 0, 'valid'), ('Teardown', 0, ''), ('Release', 0, ''),
+                                    ('Connect', 0, ''), ('Notify', 1, 'tx'), ('Notify', 1, 'upd'), ('Accept', 0, 'valid'), ('Notify', 1, 'tx')]),
+    # ... or is examined only after the next connection has made its own session hash: Run fails, nothing is delivered
+    ('old-accept-after-connect', [('Hold', 0, ''), ('Notify', 0, 'tip'), ('Flood', 0, ''), ('Accept', 0, 'valid'), ('Teardown', 0, ''), ('Connect', 0, ''),
+                                  ('Release', 0, '')]),
+    # data of connection 1 and unaccepted data of connection 2 wait in the receive queue together
+    ('data-behind-backlog', [('Accept', 0, 'valid'), ('Hold', 0, ''), ('Notify', 1, 'tx'), ('Flood', 0, ''), ('Notify', 2, 'tx'), ('Teardown', 0, ''),
+                             ('Connect', 0, ''), ('Notify', 2, 'upd'), ('Release', 0, ''), ('Accept', 0, 'valid'), ('Notify', 2, 'tx')]),
+    ('backlog-drains-before-teardown', [('Accept', 0, 'valid'), ('Hold', 0, ''), ('Notify', 0, 'tip'), ('Flood', 0, ''), ('Notify', 1, 'tx'), ('Notify', 2, 'upd'),
+                                        ('Release', 0, ''), ('Teardown', 0, ''), ('Connect', 0, ''), ('Notify', 3, 'tx'), ('Accept', 0, 'valid'), ('Notify', 3, 'tx')]),
+    ('two-teardowns-behind-one-backlog', [('Hold', 0, ''), ('Notify', 0, 'tip'), ('Flood', 0, ''), ('Teardown', 0, ''), ('Connect', 0, ''), ('Accept', 0, 'valid'),
+                                          ('Notify', 1, 'tx'), ('Teardown', 0, ''), ('Release', 0, ''), ('Connect', 0, ''), ('Notify', 2, 'tx'), ('Accept', 0, 'valid'),
+                                          ('Notify', 2, 'tx')]),
+]
+
+
+def receive_backlog(chk, thorough):
+    """C18 behind a full handler queue (spec/ReceiveBacklog.tla): the application is stuck in a handler call, the service floods the
+    client until its message loop is blocked; accepts and data then wait unexamined in the receive queue across a teardown and the next
+    connection.  Data must reach the handlers only if the service had accepted, before sending it, the connection it sent it on."""
+    import json
+    import os
+    from vf import pipeline
+    m = None
+    if not os.environ.get('VERIF_SKIP_MODEL'):
+        m = pipeline.model_check(chk, 'ReceiveBacklog', 'MC_ReceiveBacklog_quick.cfg', workers=12, timeout=1500, heap='16g',
+                                 subst={'MaxSteps = 8': 'MaxSteps = 10'} if thorough else None)
+        if not m.ok:
+            chk.infra('model checking ReceiveBacklog did not pass: %s %s' % (m.kind, m.violated))
+    scripts = []
+    for k in range(3 if thorough else 1):
+        ss = pipeline.sim_scripts(chk, 'ReceiveBacklog', 'Sim_ReceiveBacklog.cfg', num=48, depth=17, seed=chk.seed * 100 + 83 + k, prefix='rb')
+        scripts += [{'id': s['id'], 'steps': s['steps']} for s in ss]
+    scripts += [{'id': 'directed-' + n, 'steps': [{'a': a, 'k': k2, 'kind': kind} for a, k2, kind in st]} for n, st in RB_DIRECTED]
+    lines, _ = pipeline.replay_parallel(chk, 'client', 'TestVerifReplayReceiveBacklog', {}, scripts, nproc=14)
+    chk.log('replayed %d full-handler-queue scenarios on the real client: %d trace lines' % (len(scripts), len(lines)))
+    bad, rej = [], []
+    for sel, rs, r in pipeline.tlc_lines_parallel(chk, 'Props_ReceiveBacklog', 'Props_ReceiveBacklog.cfg', lines, 'props_result.json', 4, 900):
+        bad += [(f, sel[j - 1]) for f, j in rs['bad']]
+    for sel, rs, r in pipeline.tlc_lines_parallel(chk, 'Trace_ReceiveBacklog', 'Trace_ReceiveBacklog.cfg', lines, 'trace_result.json', 4, 900):
+        rej += [sel[j - 1] for j in rs['rej']]
+    ids = {s['id']: s for s in scripts}
+    seen = set()
+    for f, l in sorted(bad, key=lambda x: x[1]):
+        ln = lines[l - 1]
+        if (ln['tr'], f) in seen:
+            continue
+        seen.add((ln['tr'], f))
+        idx = [k for k, x in enumerate(lines) if x['tr'] == ln['tr']]
+        i = idx.index(l - 1)
+        if f not in FORMULAS:      # BacklogInOrder is C17's statement: noted here, decided there
+            chk.notes.append('ReceiveBacklog: %s false in scenario %s step %d' % (f, ln['tr'], i))
+            chk.log('NOTE: %s false in scenario %s step %d (not a C18 formula)' % (f, ln['tr'], i))
+            continue
+        chk.violation(f, 'full-handler-queue scenario %s step %d %s: the handlers saw (kind, id, send number, connection) %s; the service accepted (connection, send number) %s; '
+                      'flag=%s connection %s up=%s' % (ln['tr'], i, json.dumps(ln['act']), [(d['k'], d['id'], d['n'], d['e']) for d in ln['st']['deliv']],
+                                                       [(a['e'], a['n']) for a in ln['st']['accs']], ln['st']['flag'], ln['st']['ep'], ln['st']['up']),
+                      {'script': {'id': ln['tr'], 'module': 'ReceiveBacklog', 'steps': ids[ln['tr']]['steps'][:i]}}, {'line': ln})
+    drift = sorted({lines[l - 1]['tr'] for l in rej})
+    if drift:
+        chk.notes.append('ReceiveBacklog conformance drift: %d rejected lines (scenarios %s)' % (len(rej), drift[:5]))
+        chk.log('DRIFT: Trace_ReceiveBacklog rejected %d recorded steps (scenarios %s)' % (len(rej), drift[:5]))
+        l = rej[0]
+        chk.log('  rejected: %s skip=%r\n     before %s\n     after  %s' % (lines[l - 1]['act'], lines[l - 1]['skip'], json.dumps(lines[l - 2]['st']), json.dumps(lines[l - 1]['st'])))
+    blocked = sum(1 for s in scripts if any(x['a'] == 'Flood' for x in s['steps']) and any(x['a'] == 'Teardown' for x in s['steps']))
+    return {'full_handler_queue_batch': {'scenarios': len(scripts), 'with_flood_and_teardown': blocked, 'lines': len(lines), 'rejected': len(rej),
+                                         'false_instances': len([1 for f, _ in bad if f in FORMULAS]), 'model_states': m.distinct if m else 0}}
 
 
 def main(argv):
     chk = core.Check('C18', 'model_checking', argv)
+    if chk.replay:
+        import json
+        rp = json.load(open(chk.replay))['replay'].get('script', {})
+        if rp.get('module') == 'ReceiveBacklog':
+            from vf import pipeline
+            lines, _ = pipeline.replay_parallel(chk, 'client', 'TestVerifReplayReceiveBacklog', {}, [{'id': rp['id'], 'steps': rp['steps']}], nproc=1)
+            for sel, rs, r in pipeline.tlc_lines_parallel(chk, 'Props_ReceiveBacklog', 'Props_ReceiveBacklog.cfg', lines, 'props_result.json', 1, 600):
+                for f, j in rs['bad']:
+                    chk.violation(f, 'full-handler-queue scenario %s: %s' % (rp['id'], lines[sel[j - 1] - 1]['st']['deliv']), {'script': rp}, {})
+            chk.finish({'states': 0, 'transitions': 0, 'traces_validated_against_impl': 1, 'evaluations': 1, 'distinct_nontrivial': 1,
+                        'rule': 'replay of one full-handler-queue scenario', 'samples': [rp], 'checker_cmd': 'tlc Props_ReceiveBacklog', 'exhaustive': False})
+            return
     rc.standard(chk, FORMULAS,
                 lambda s: rc.has(s, 'Accept', 'Call') and s['steps'][0]['a'] != 'Accept',
                 'scenarios = TLC simulation behaviours of RemoteClient (valid accept and 4 forged variants: wrong key, key for another hash, '
@@ -14,4 +97,5 @@ def main(argv):
                 'connection types) + directed scenarios (queued requests followed by a failed accept or a stop); non-trivial = a call issued '
                 'before the accept',
                 ['the forged accepts are the four named variants, not arbitrary byte strings (C20 covers decoding)',
-                 'the connection shutdown is slowed by 5 ms at the verif hook conn.teardown so that goroutines woken by it run before the socket closes'])
+                 'the connection shutdown is slowed by 5 ms at the verif hook conn.teardown so that goroutines woken by it run before the socket closes'],
+                extra=receive_backlog)
